@@ -734,20 +734,56 @@ func c15WS(w *W) {
 			w.Failf("HARNESS/dial", "no WebSocket request arrived")
 			return
 		}
-		if want := info.PeerName + ".sp.nanomsg.org"; len(sp) != 1 || sp[0] != want {
-			w.Failf("C15/ws-subprotocol-offer:"+kind, "%s dialling over WebSocket offered %q, the mapping requires %q", kind, sp, want)
-			return
+		// the server may drop the first connections right after the upgrade:
+		// every redial of the same dialer makes the same offer again
+		drops := 0
+		if w.Choose(simrt.SProg, 2) == 0 {
+			drops = 1 + w.Choose(simrt.SProg, 2)
 		}
-		for i := 0; i < 3000 && ws == nil; i++ {
-			select {
-			case ws = <-got:
-			default:
+		for attempt := 0; ; attempt++ {
+			if want := info.PeerName + ".sp.nanomsg.org"; len(sp) != 1 || sp[0] != want {
+				w.Failf("C15/ws-subprotocol-offer:"+kind, "%s dialling over WebSocket offered %q on connection attempt %d, the mapping requires %q", kind, sp, attempt+1, want)
+				return
+			}
+			ws = nil
+			for i := 0; i < 3000 && ws == nil; i++ {
+				select {
+				case ws = <-got:
+				default:
+					w.Sleep(10 * time.Millisecond)
+				}
+			}
+			if ws == nil {
+				w.Failf("HARNESS/dial", "upgrade did not complete")
+				return
+			}
+			for i := 0; wsAttached.Load() < int32(attempt+1) && i < 3000; i++ {
 				w.Sleep(10 * time.Millisecond)
 			}
-		}
-		if ws == nil {
-			w.Failf("HARNESS/dial", "upgrade did not complete")
-			return
+			if wsAttached.Load() < int32(attempt+1) {
+				w.Failf("C15/conforming-peer-not-attached:"+kind, "%s over ws (dial, connection %d): the upgrade completed with the right sub-protocol, no pipe was attached within 30s", kind, attempt+1)
+				return
+			}
+			if attempt >= drops {
+				break
+			}
+			w.Op("the WebSocket server drops connection %d right after the upgrade", attempt+1)
+			w.Fault("close")
+			ws.Close()
+			gotOffer = false
+			for i := 0; i < 3000 && !gotOffer; i++ {
+				select {
+				case sp = <-offered:
+					gotOffer = true
+				default:
+					w.Sleep(10 * time.Millisecond)
+				}
+			}
+			if !gotOffer {
+				w.Failf("C14/no-redial", "%s over ws: the server dropped the connection after the upgrade; no new WebSocket request within 30s", kind)
+				return
+			}
+			w.Probe("ws-redial-offer-checked")
 		}
 	}
 	defer ws.Close()
